@@ -1,0 +1,44 @@
+//! Verification hooks, only compiled with `--cfg mainline_verif`.
+//!
+//! Nothing in here is reachable in a normal build. The module provides a virtual clock,
+//! an in-memory UDP socket, a deterministic random source and re-exports of crate-private
+//! items, so that an external harness can drive whole nodes deterministically.
+#![allow(missing_docs, clippy::unwrap_used, clippy::panic)]
+
+use std::sync::atomic::{AtomicU64, Ordering};
+use std::time::Duration;
+
+// ---------------------------------------------------------------- clock (H1)
+
+static CLOCK_NS: AtomicU64 = AtomicU64::new(1_000_000_000_000_000);
+const EPOCH_OFFSET_US: u64 = 1_700_000_000_000_000;
+
+/// Stand-in for `std::time::Instant`, reading a process-global virtual clock
+/// that only the harness advances.
+#[derive(Clone, Copy, PartialEq, Eq, PartialOrd, Ord, Debug, Hash)]
+pub struct Instant(u64);
+
+impl Instant {
+    pub fn now() -> Self {
+        Instant(CLOCK_NS.load(Ordering::SeqCst))
+    }
+    pub fn elapsed(&self) -> Duration {
+        Duration::from_nanos(Self::now().0.saturating_sub(self.0))
+    }
+    pub fn as_nanos(&self) -> u64 {
+        self.0
+    }
+}
+
+/// Harness: advance the virtual clock.
+pub fn advance(d: Duration) {
+    CLOCK_NS.fetch_add(d.as_nanos() as u64, Ordering::SeqCst);
+}
+/// Harness: read the virtual clock (nanoseconds).
+pub fn now_ns() -> u64 {
+    CLOCK_NS.load(Ordering::SeqCst)
+}
+/// Stand-in for `SystemTime::now()` in microseconds since the unix epoch.
+pub fn system_time_micros() -> u64 {
+    EPOCH_OFFSET_US + CLOCK_NS.load(Ordering::SeqCst) / 1000
+}
